@@ -838,6 +838,9 @@ type C08Node struct {
 	Lit      string    `json:"lit,omitempty"` // literal name ("" = argument)
 	Parser   int       `json:"parser"`        // argument: StringParser mode 0/1/2
 	Children []C08Node `json:"children,omitempty"`
+	// Handle: how the builder chain is finished: 0 HandleFunc(handler), 1 Unhandle() (the node is not executable:
+	// a line that ends at it must be refused with an error), 2 a handler that returns an error
+	Handle int `json:"handle,omitempty"`
 }
 
 type C08Cmd struct {
@@ -845,15 +848,25 @@ type C08Cmd struct {
 	Lines []string  `json:"lines"`
 }
 
+var errC08Handler = errors.New("harness handler refuses")
+
 func buildGraph(c C08Cmd) *command.Graph {
 	g := command.NewGraph()
 	h := func(context.Context, []command.ParsedData) error { return nil }
 	var lit func(n C08Node) *command.Literal
 	var arg func(n C08Node) *command.Argument
+	hErr := func(context.Context, []command.ParsedData) error { return errC08Handler }
 	lit = func(n C08Node) *command.Literal {
 		b := g.Literal(n.Lit)
 		if len(n.Children) > 0 && n.Children[0].Lit == "" {
-			return b.AppendArgument(arg(n.Children[0])).HandleFunc(h)
+			bb := b.AppendArgument(arg(n.Children[0]))
+			switch n.Handle {
+			case 1:
+				return bb.Unhandle()
+			case 2:
+				return bb.HandleFunc(hErr)
+			}
+			return bb.HandleFunc(h)
 		}
 		if len(n.Children) > 0 {
 			bl := b.AppendLiteral(lit(n.Children[0]))
@@ -862,14 +875,33 @@ func buildGraph(c C08Cmd) *command.Graph {
 					bl = bl.AppendLiteral(lit(ch))
 				}
 			}
+			switch n.Handle {
+			case 1:
+				return bl.Unhandle()
+			case 2:
+				return bl.HandleFunc(hErr)
+			}
 			return bl.HandleFunc(h)
+		}
+		switch n.Handle {
+		case 1:
+			return b.Unhandle()
+		case 2:
+			return b.HandleFunc(hErr)
 		}
 		return b.HandleFunc(h)
 	}
 	arg = func(n C08Node) *command.Argument {
 		b := g.Argument("arg", command.StringParser(n.Parser))
 		if len(n.Children) > 0 && n.Children[0].Lit == "" {
-			return b.AppendArgument(arg(n.Children[0])).HandleFunc(h)
+			bb := b.AppendArgument(arg(n.Children[0]))
+			switch n.Handle {
+			case 1:
+				return bb.Unhandle()
+			case 2:
+				return bb.HandleFunc(hErr)
+			}
+			return bb.HandleFunc(h)
 		}
 		if len(n.Children) > 0 {
 			bl := b.AppendLiteral(lit(n.Children[0]))
@@ -878,7 +910,19 @@ func buildGraph(c C08Cmd) *command.Graph {
 					bl = bl.AppendLiteral(lit(ch))
 				}
 			}
+			switch n.Handle {
+			case 1:
+				return bl.Unhandle()
+			case 2:
+				return bl.HandleFunc(hErr)
+			}
 			return bl.HandleFunc(h)
+		}
+		switch n.Handle {
+		case 1:
+			return b.Unhandle()
+		case 2:
+			return b.HandleFunc(hErr)
 		}
 		return b.HandleFunc(h)
 	}
@@ -913,6 +957,7 @@ func genNode(t *rapid.T, depth int, literal bool) C08Node {
 	} else {
 		n.Parser = rapid.IntRange(0, 2).Draw(t, "parser")
 	}
+	n.Handle = rapid.SampledFrom([]int{0, 0, 0, 1, 1, 2}).Draw(t, "handle")
 	if depth < 3 {
 		k := rapid.IntRange(0, 3).Draw(t, "nchildren")
 		childLit := rapid.Bool().Draw(t, "childlit")
